@@ -844,3 +844,85 @@ def ob_inproc_internal_wake_during_slow_tick_write(T: int, lat: int, x: int, z: 
             bad.append(f"t={ab['at']}: released with workers={ab['workers_running']} timer pending={ab['wakeup_pending']}")
     _debug(f"slow tick write T={T} lat={lat} x={x} z={z} land_first={land_first}", bad)
     return not bad
+
+
+# ----------------------------------------------------------------------------------------------- two retries waiting out different delays
+from workflows.events import Event as _Event26  # noqa: E402
+
+
+class EvBr(_Event26):
+    k: int
+
+
+class EvBrDone(_Event26):
+    k: int
+
+
+class _PerBranchDelay:
+    """retry policy: branch k is retried once, after delays[k] seconds"""
+
+    def __init__(self) -> None:
+        self.delays = [1, 1]
+        self.branch_of: Dict[int, int] = {}
+
+    def next(self, elapsed_time: float, attempts: int, error: Exception) -> Any:
+        if attempts > 1:
+            return None
+        return float(self.delays[int(str(error))])
+
+
+_BR_POLICY = _PerBranchDelay()
+
+
+class TwoRetriesWF(Workflow):
+    """start fans out two branches; each branch's first attempt fails and is retried after its own delay (x0 < x1 in the scenarios); a join
+    collects both.  While the later retry waits out its delay the earlier one has already been processed and the run is quiescent."""
+
+    def __init__(self, **kw: Any) -> None:
+        super().__init__(**kw)
+        self.calls: List[Any] = []
+
+    @step
+    async def begin(self, ctx: Context, ev: StartEvent) -> EvBr | None:
+        ctx.send_event(EvBr(k=0))
+        ctx.send_event(EvBr(k=1))
+        return None
+
+    @step(num_workers=2, retry_policy=_BR_POLICY)
+    async def branch(self, ctx: Context, ev: EvBr) -> EvBrDone:
+        self.calls.append(("branch", ev.k))
+        if self.calls.count(("branch", ev.k)) == 1:
+            raise RuntimeError(str(ev.k))
+        return EvBrDone(k=ev.k)
+
+    @step
+    async def join(self, ctx: Context, ev: EvBrDone) -> StopEvent | None:
+        got = ctx.collect_events(ev, [EvBrDone, EvBrDone])
+        if got is None:
+            return None
+        return StopEvent(result=sorted(e.k for e in got))
+
+
+@obligation(quick=240, thorough=600, partitions_quick=[f"T == {t}" for t in (1, 2, 3)], partitions_thorough=[f"T == {t} and x0 == {x}" for t in (1, 2, 3) for x in (1, 2, 3)],
+            what="in-process stack, TWO retries waiting out different delays (x0 < x1): after the earlier one has been retried the run is quiescent "
+                 "while the later one is still in the timer heap — it is not announced idle / released (abort of the live loop) before that "
+                 "retry has run, and the run completes with both branches",
+            bounds={"idle_timeout T": "1..3", "earlier delay x0": "1..3", "later delay": "x0 + 1..3"})
+def ob_inproc_two_pending_retries(T: int, x0: int, dx: int) -> bool:
+    """
+    pre: 1 <= T <= 3 and 1 <= x0 <= 3 and 1 <= dx <= 3
+    post: _
+    """
+    T, x0, dx = concrete(T, 1, 3), concrete(x0, 1, 3), concrete(dx, 1, 3)
+    _BR_POLICY.delays = [x0, x0 + dx]
+    o = run_stack("inproc", T, [], lambda: TwoRetriesWF(timeout=None), _mk_event, early=True, probe_to=0, settle=0, horizon=x0 + dx + T + 4)
+    bad: List[str] = []
+    if o["errors"] or o["loop_exceptions"]:
+        bad.append(f"errors {o['errors']} {o['loop_exceptions']}")
+    for ab in o["aborts"]:
+        if ab["was_running"] and not abort_state_is_quiescent(ab):
+            bad.append(f"t={ab['at']}: released with mailbox={ab['mailbox']} workers={ab['workers_running']} timer pending={ab['wakeup_pending']}")
+    if o["status"] != "completed" or o["result"] != [0, 1]:
+        bad.append(f"final {o['status']}/{o['result']}, wanted completed/[0, 1]")
+    _debug(f"two retries T={T} x0={x0} dx={dx}", bad)
+    return not bad
